@@ -668,6 +668,40 @@ func (w *world) mixing(t *rt.Tape, trace bool, res *core.Result, smp *sample, cu
 				dec{"round 2 of the other curve", func() error { _, e := sha2pc.DecodeRound2(curve, s2.M2); return e }},
 				dec{"garbler session of the other curve", func() error { _, e := sha2pc.DecodeGarblerSession(curve, s2.GS); return e }},
 				dec{"evaluator session of the other curve", func() error { _, e := sha2pc.DecodeEvaluatorSession(curve, s2.ES); return e }},
+				// the same in the other direction: values of a session of the other curve handed to this
+				// curve's encoders (what a process that serves two curves can do by mistake)
+				dec{"round 1 value of curve " + other.Params().Name + " encoded for " + smp.Curve, func() error {
+					m, e := sha2pc.DecodeRound1(other, s2.M1)
+					if e != nil {
+						return fmt.Errorf("harness: %v", e)
+					}
+					_, e = sha2pc.EncodeRound1(curve, m)
+					return e
+				}},
+				dec{"round 2 value of curve " + other.Params().Name + " encoded for " + smp.Curve, func() error {
+					m, e := sha2pc.DecodeRound2(other, s2.M2)
+					if e != nil {
+						return fmt.Errorf("harness: %v", e)
+					}
+					_, e = sha2pc.EncodeRound2(curve, m)
+					return e
+				}},
+				dec{"garbler session of curve " + other.Params().Name + " encoded for " + smp.Curve, func() error {
+					m, e := sha2pc.DecodeGarblerSession(other, s2.GS)
+					if e != nil {
+						return fmt.Errorf("harness: %v", e)
+					}
+					_, e = sha2pc.EncodeGarblerSession(curve, m)
+					return e
+				}},
+				dec{"evaluator session of curve " + other.Params().Name + " encoded for " + smp.Curve, func() error {
+					m, e := sha2pc.DecodeEvaluatorSession(other, s2.ES)
+					if e != nil {
+						return fmt.Errorf("harness: %v", e)
+					}
+					_, e = sha2pc.EncodeEvaluatorSession(curve, m)
+					return e
+				}},
 			)
 			res.Reach["mixing.other-curve"]++
 		}
